@@ -1,4 +1,7 @@
 import NmVerif.Lemmas.Tile
+import NmVerif.Lemmas.Pad
+import NmVerif.Lemmas.Take
+import NmVerif.Lemmas.Repeat
 /-
   C04 — selecting / replicating / joining / generating views equal their reference result.
   Only the property theorems live here; models are in `NmVerif/Index/*.lean`, specs + helper lemmas in
@@ -36,5 +39,225 @@ theorem tile_inBounds (s r : List Nat) (v : IxView) (hv : tileView s r = some v)
 example : tileShapeSpec [2, 3] [2, 1, 2] = [2, 2, 6] := by decide
 example : (tileView [2, 3] [2, 1, 2]).map (·.map [1, 1, 5]) = some (some [1, 2]) := by decide
 example : InShape [1, 1, 5] (tileShapeSpec [2, 3] [2, 1, 2]) ∧ Pos [2, 3] := by decide
+
+/-! ### pad (constant fill; widths `before ++ after`, one entry per axis and side) -/
+
+/-- accepted widths: the view exists and has the documented shape `s + before + after` -/
+theorem pad_shape (s before after : List Nat) (hb : before.length = s.length) (ha : after.length = s.length) :
+    ∃ v, padView s (before ++ after) = some v ∧ v.src = s ∧ v.dst = padShapeSpec s before after := by
+  simp [padView, shapePad_eq_spec s before after hb ha]
+
+/-- a width list that does not have two entries per axis is refused (Nothing) -/
+theorem pad_nothing (s w : List Nat) (h : 2 * s.length ≠ w.length) : padView s w = none := by
+  simp [padView, shapePad_none s w h]
+
+/-- inside the box `before ≤ d < before + s` the element is the source element at `d - before`, elsewhere the fill value -/
+theorem pad_elem (s before after : List Nat) (hb : before.length = s.length) (ha : after.length = s.length)
+    (v : IxView) (hv : padView s (before ++ after) = some v) (d : Idx) (hd : InShape d v.dst) :
+    v.map d = padIdxSpec d s before := by
+  simp only [padView, shapePad_eq_spec s before after hb ha, Option.map_some, Option.some.injEq] at hv
+  subst hv
+  have hl := hd.length_eq
+  simp only [padShapeSpec, List.length_zipWith, hb, ha, Nat.min_self] at hl
+  exact indexPadLoop_eq_spec d s before after hl hb
+
+/-- a pad view never reads outside its source -/
+theorem pad_inBounds (s before after : List Nat) (hb : before.length = s.length) (ha : after.length = s.length)
+    (v : IxView) (hv : padView s (before ++ after) = some v) : v.InBounds := by
+  intro d hd i hi
+  rw [pad_elem s before after hb ha v hv d hd] at hi
+  have hsrc : v.src = s := by
+    simp only [padView, shapePad_eq_spec s before after hb ha, Option.map_some, Option.some.injEq] at hv
+    subst hv; rfl
+  rw [hsrc]
+  unfold padIdxSpec at hi
+  split at hi
+  · rename_i hbox
+    simp only [Option.some.injEq] at hi
+    subst hi
+    exact inBox_sub_inShape d s before hbox
+  · simp at hi
+
+example : padShapeSpec [2, 3] [1, 0] [0, 2] = [3, 5] := by decide
+example : (padView [2, 3] [1, 0, 0, 2]).map (fun v => (v.map [1, 2], v.map [0, 2], v.map [1, 4])) =
+    some (some [0, 2], none, none) := by decide
+
+/-! ### take (domain of the theorems: axis ≥ 0 or None, index entries ≥ 0; the unchanged code does not
+    normalise negative axes / entries — see the `_counterexample`s and known findings take.negative-*) -/
+
+/-- NumPy's shape `s[:k] ++ [len ind] ++ s[k+1:]`; the view is never Nothing -/
+theorem take_shape (s : Shape) (ind : List Int) (k : Nat) (hk : k < s.length) :
+    ∃ v, takeView s ind (some (k : Int)) = some v ∧ v.src = s ∧ v.dst = takeShapeSpec s ind.length k :=
+  ⟨_, rfl, rfl, shapeTake_eq_spec s ind.length k hk⟩
+
+/-- `out[…, x, …] = a[…, ind[x], …]` for a non-negative entry `ind[x] = j` -/
+theorem take_elem (s : Shape) (ind : List Int) (k : Nat) (hk : k < s.length) (v : IxView)
+    (hv : takeView s ind (some (k : Int)) = some v) (d : Idx) (hd : InShape d v.dst)
+    (x j : Nat) (hx : d[k]? = some x) (hj : ind[x]? = some (j : Int)) :
+    v.map d = some (d.set k j) := by
+  simp only [takeView, Option.some.injEq] at hv
+  subst hv
+  simp [indexTake_eq d ind k x j hx hj]
+
+/-- entries inside `[0, s[k])` ⇒ every read is inside the source -/
+theorem take_inBounds (s : Shape) (ind : List Int) (k : Nat) (hk : k < s.length)
+    (hind : ∀ e ∈ ind, 0 ≤ e ∧ e < (s[k] : Int)) (v : IxView)
+    (hv : takeView s ind (some (k : Int)) = some v) : v.InBounds := by
+  have hv' := hv
+  simp only [takeView, Option.some.injEq] at hv
+  subst hv
+  intro d hd i hi
+  simp only at hd hi
+  rw [shapeTake_eq_spec s ind.length k hk, takeShapeSpec_eq_set s _ k hk] at hd
+  have hl := hd.length_eq
+  simp at hl
+  have hkd : k < d.length := by omega
+  have hdk : d[k] < ind.length := by
+    have := ((inShape_iff_forall _ _).1 hd).2 k hkd (by simpa using hk)
+    simpa using this
+  have hmem := hind ind[d[k]] (List.getElem_mem hdk)
+  obtain ⟨j, hj⟩ : ∃ j : Nat, ind[d[k]] = (j : Int) := ⟨ind[d[k]].toNat, by omega⟩
+  have := indexTake_eq d ind k d[k] j (by simp [hkd]) (by simp [hdk, hj])
+  simp only [Option.some.injEq] at hi
+  rw [this] at hi
+  subst hi
+  have hjs : j < s[k] := by rw [hj] at hmem; omega
+  exact inShape_set_of_set hd hk hjs
+
+/-- axis None: shape `[len ind]`, never Nothing -/
+theorem takeNone_shape (s : Shape) (ind : List Int) :
+    ∃ v, takeView s ind none = some v ∧ v.src = s ∧ v.dst = [ind.length] := ⟨_, rfl, rfl, rfl⟩
+
+/-- axis None: `out[x] = flat(a)[ind[x]]` for a non-negative entry -/
+theorem takeNone_elem (s : Shape) (ind : List Int) (v : IxView) (hv : takeView s ind none = some v)
+    (x j : Nat) (hj : ind[x]? = some (j : Int)) : v.map [x] = some (ndindex s j) := by
+  simp only [takeView, Option.some.injEq] at hv
+  subst hv
+  simp [indexTakeNone, takeEntry_nat ind x j hj, ndindex]
+
+theorem takeNone_inBounds (s : Shape) (hs : Pos s) (ind : List Int) (v : IxView) (hv : takeView s ind none = some v) :
+    v.InBounds := by
+  simp only [takeView, Option.some.injEq] at hv
+  subst hv
+  intro d hd i hi
+  simp only [Option.some.injEq] at hi
+  subst hi
+  cases d with
+  | nil => simp [shapeTakeNone, InShape] at hd
+  | cons x xs => exact indices_inShape hs _
+
+/-- the unchanged code does not count negative entries from the end: `take([0,1,2], [-1])` reads index 2^64-1, NumPy reads 2 -/
+theorem take_negative_index_counterexample :
+    (takeView [3] [-1] (some 0)).bind (·.map [0]) ≠ (normIndex 3 (-1)).map (fun j => [j]) := by decide
+
+/-- … nor a negative axis: `take(a, [1], axis=-1)` on shape `[2]` keeps shape `[2]`, NumPy gives `[1]` -/
+theorem take_negative_axis_counterexample :
+    (takeView [2] [1] (some (-1))).map (·.dst) ≠ some (takeShapeSpec [2] 1 0) := by decide
+
+example : takeShapeSpec [2, 3, 4] 5 1 = [2, 5, 4] := by decide
+example : (takeView [2, 3] [2, 0, 0] (some 1)).map (·.map [1, 0]) = some (some [1, 2]) := by decide
+example : normIndex 3 (-1) = some 2 := by decide
+
+/-! ### repeat (domain of the theorems: axis ≥ 0 or None; the unchanged index function ignores a negative axis —
+    `repeat_negative_axis_counterexample`, known finding repeat.negative-axis) -/
+
+/-- a destination index inside `replaceExtent s k m` has the rank of `s` and its `k`-th coordinate below `m` -/
+private theorem coord_of_inShape {d : Idx} {s : Shape} {k m : Nat} (hk : k < s.length)
+    (hd : InShape d (replaceExtent s k m)) : ∃ x, d[k]? = some x ∧ x < m ∧ InShape d (s.set k m) := by
+  rw [replaceExtent_eq_set s k m hk] at hd
+  have hl := hd.length_eq
+  simp at hl
+  have hkd : k < d.length := by omega
+  refine ⟨d[k], by simp [hkd], ?_, hd⟩
+  have := ((inShape_iff_forall _ _).1 hd).2 k hkd (by simpa using hk)
+  simpa using this
+
+/-- scalar repeats along axis `k`: NumPy's shape (extent `s[k]·r`), never Nothing -/
+theorem repeat_shape (s : Shape) (r k : Nat) (hk : k < s.length) :
+    ∃ v, repeatView s r (some (k : Int)) = some v ∧ v.src = s ∧ v.dst = replaceExtent s k (s[k] * r) := by
+  simp [repeatView, shapeRepeat_eq_spec s r k hk]
+
+/-- `out[…, x, …] = a[…, x / r, …]` -/
+theorem repeat_elem (s : Shape) (r k : Nat) (hk : k < s.length) (v : IxView)
+    (hv : repeatView s r (some (k : Int)) = some v) (d : Idx) (x : Nat) (hx : d[k]? = some x) :
+    v.map d = some (d.set k (x / r)) := by
+  simp only [repeatView, shapeRepeat_eq_spec s r k hk, Option.map_some, Option.some.injEq] at hv
+  subst hv
+  simp [indexRepeat_eq r k x d hx]
+
+theorem repeat_inBounds (s : Shape) (r k : Nat) (hk : k < s.length) (v : IxView)
+    (hv : repeatView s r (some (k : Int)) = some v) : v.InBounds := by
+  intro d hd i hi
+  have hv' := hv
+  simp only [repeatView, shapeRepeat_eq_spec s r k hk, Option.map_some, Option.some.injEq] at hv'
+  subst hv'
+  obtain ⟨x, hx, hxm, hd'⟩ := coord_of_inShape hk hd
+  rw [repeat_elem s r k hk _ hv d x hx] at hi
+  simp only [Option.some.injEq] at hi
+  subst hi
+  have hr : 0 < r := by
+    rcases Nat.eq_zero_or_pos r with h | h
+    · subst h; simp at hxm
+    · exact h
+  exact inShape_set_of_set hd' hk ((Nat.div_lt_iff_lt_mul hr).2 hxm)
+
+/-- axis None: shape `[size·r]`, `out[x] = flat(a)[x / r]` -/
+theorem repeatNone_shape (s : Shape) (r : Nat) :
+    ∃ v, repeatView s r none = some v ∧ v.src = s ∧ v.dst = [prod s * r] := ⟨_, rfl, rfl, rfl⟩
+
+theorem repeatNone_elem (s : Shape) (r : Nat) (v : IxView) (hv : repeatView s r none = some v) (x : Nat) :
+    v.map [x] = some (ndindex s (x / r)) := by
+  simp only [repeatView, Option.some.injEq] at hv
+  subst hv
+  simp [indexRepeatNone, ndindex]
+
+theorem repeatNone_inBounds (s : Shape) (hs : Pos s) (r : Nat) (v : IxView) (hv : repeatView s r none = some v) :
+    v.InBounds := by
+  simp only [repeatView, Option.some.injEq] at hv
+  subst hv
+  intro d hd i hi
+  simp only [Option.some.injEq] at hi
+  subst hi
+  cases d with
+  | nil => simp [shapeRepeatNone, InShape] at hd
+  | cons x xs => exact indices_inShape hs _
+
+/-- one count per entry: NumPy's shape (extent `sum rs`) -/
+theorem repeatList_shape (s : Shape) (rs : List Nat) (k : Nat) (hk : k < s.length) :
+    ∃ v, repeatListView s rs (k : Int) = some v ∧ v.src = s ∧ v.dst = replaceExtent s k (sum rs) := by
+  simp [repeatListView, shapeRepeatList_eq_spec s rs k hk]
+
+/-- position `x` of the axis reads source position `np.repeat(arange(len rs), rs)[x]` -/
+theorem repeatList_elem (s : Shape) (rs : List Nat) (k : Nat) (hk : k < s.length) (v : IxView)
+    (hv : repeatListView s rs (k : Int) = some v) (d : Idx) (hd : InShape d v.dst) :
+    ∃ x j, d[k]? = some x ∧ (repeatSrc rs 0)[x]? = some j ∧ j < rs.length ∧ v.map d = some (d.set k j) := by
+  simp only [repeatListView, shapeRepeatList_eq_spec s rs k hk, Option.map_some, Option.some.injEq] at hv
+  subst hv
+  obtain ⟨x, hx, hxm, _⟩ := coord_of_inShape hk hd
+  have := repeatSrc_getElem rs 0 x hxm
+  refine ⟨x, firstAbove rs x, hx, by simpa using this.1, this.2, ?_⟩
+  simp [indexRepeatList_eq rs k x d hx]
+
+theorem repeatList_inBounds (s : Shape) (rs : List Nat) (k : Nat) (hk : k < s.length) (hrs : rs.length = s[k])
+    (v : IxView) (hv : repeatListView s rs (k : Int) = some v) : v.InBounds := by
+  intro d hd i hi
+  obtain ⟨x, j, hx, _, hj, hm⟩ := repeatList_elem s rs k hk v hv d hd
+  simp only [repeatListView, shapeRepeatList_eq_spec s rs k hk, Option.map_some, Option.some.injEq] at hv
+  subst hv
+  obtain ⟨_, _, _, hd'⟩ := coord_of_inShape hk hd
+  rw [hm] at hi
+  simp only [Option.some.injEq] at hi
+  subst hi
+  have hjs : j < s[k] := by omega
+  exact inShape_set_of_set hd' hk hjs
+
+/-- the unchanged `index::repeat` ignores a negative axis: `repeat(a, 2, axis=-1)` on shape `[1]` reads index 1 at
+    destination 1 where NumPy reads `1 / 2 = 0` -/
+theorem repeat_negative_axis_counterexample :
+    (repeatView [1] 2 (some (-1))).bind (·.map [1]) ≠ (repeatView [1] 2 (some 0)).bind (·.map [1]) := by decide
+
+example : replaceExtent [2, 3, 4] 1 6 = [2, 6, 4] := by decide
+example : repeatSrc [1, 2, 0, 3] 0 = [0, 1, 1, 3, 3, 3] := by decide
+example : (repeatListView [2, 3] [1, 2, 0] 1).map (fun v => (v.dst, v.map [1, 2])) = some ([2, 3], some [1, 1]) := by decide
 
 end NmVerif.Props.C04
